@@ -83,6 +83,11 @@ fn inclusion<const LEN: usize>() {
     let got = proof.verify(&root, &MerkleTreeKey::new_without_hash(key), &value.b);
     let expect = eq32(&recompute(&key, s_leaf(&key, &s_sum(&value.b)), &proof.proof_set), &root);
     assert!(got == expect);
+    #[cfg(verif_playback)]
+    for r in candidate_roots(&s_leaf(&key, &s_sum(&value.b)), &proof.proof_set, s_node) {
+        let g = proof.verify(&r, &MerkleTreeKey::new_without_hash(key), &value.b);
+        assert!(g == eq32(&recompute(&key, s_leaf(&key, &s_sum(&value.b)), &proof.proof_set), &r), "inclusion verify disagrees for a SHA-256 witness");
+    }
     kani::cover!(got, "accepted"); kani::cover!(!got, "rejected");
     core::mem::forget(proof);
 }
@@ -96,6 +101,11 @@ fn exclusion<const LEN: usize>(placeholder: bool) {
     let claims_key = !placeholder && eq32(&lk, &key);
     let expect = !claims_key && eq32(&recompute(&key, start, &proof.proof_set), &root);
     assert!(got == expect);
+    #[cfg(verif_playback)]
+    for r in candidate_roots(&start, &proof.proof_set, s_node) {
+        let g = proof.verify(&r, &MerkleTreeKey::new_without_hash(key));
+        assert!(g == (!claims_key && eq32(&recompute(&key, start, &proof.proof_set), &r)), "exclusion verify disagrees for a SHA-256 witness");
+    }
     kani::cover!(got, "accepted"); kani::cover!(!got, "rejected");
     if !placeholder { kani::cover!(claims_key, "leaf claiming the queried key is rejected"); }
     core::mem::forget(proof);
